@@ -502,3 +502,52 @@ def loop_continues_after(prog, inst_id, site_bb):
             return False, "returns from inside the loop at bb%d" % x
         dq.extend(body.succs(x))
     return True, ""
+
+
+ORD_TY = "std::sync::atomic::Ordering"
+
+
+def params_of_type(fn, ty):
+    """1-based local indices of the parameters of `fn` whose type is `ty` (or a reference to it), in declaration order."""
+    out = []
+    b = fn.body
+    for l in range(1, b.arg_count + 1):
+        t = b.locals[l]["ty"]
+        if t == ty or t == "&" + ty or t == "&mut " + ty:
+            out.append(l)
+    return out
+
+
+def param_name(fn, ty, k=0):
+    """Name of the k-th parameter of type `ty` in the current tree (rules must not hard-code local names)."""
+    ps = params_of_type(fn, ty)
+    if k < len(ps):
+        return fn.body.local_name(ps[k]) or "_%d" % ps[k]
+    return None
+
+
+def ordering_ordinal(prog, fn_key, e):
+    """If expression `e` is (a copy of) an Ordering-typed parameter of fn_key - directly, or captured by a closure from the
+    enclosing function - return its ordinal among the Ordering-typed parameters of the function that declares it."""
+    e = strip(e)
+    fn = prog.fns[fn_key]
+    if e[0] == "param":
+        ps = params_of_type(fn, ORD_TY)
+        return ("ord", ps.index(e[1])) if e[1] in ps else ("param", e[2])
+    if e[0] == "upvar":
+        # captured variable: same name in the enclosing function
+        parent = fn.j.get("parent_fn")
+        while parent and parent in prog.fns:
+            pf = prog.fns[parent]
+            for l in range(1, pf.body.arg_count + 1):
+                if pf.body.local_name(l) == e[2] and l in params_of_type(pf, ORD_TY):
+                    return ("ord", params_of_type(pf, ORD_TY).index(l))
+            if pf.kind != "Closure":
+                break
+            parent = pf.j.get("parent_fn")
+        return ("upvar", e[2])
+    if e[0] == "agg" and e[1] == ORD_TY:
+        return ("const", e[2])
+    if e[0] == "const" and "variant" in e[1]:
+        return ("const", e[1]["variant"])
+    return ("expr", canon(e))
